@@ -142,6 +142,28 @@ Theorem C15_empty_key_cleanup_invisible : forall k t r, In t (lookup k r) -> rm 
 Proof. exact Proofs.Notifier.unsubscribe_cleanup. Qed.
 Print Assumptions C15_empty_key_cleanup_invisible.
 
+(* The registry with the context each subscription was registered with ([cregistry], [subs_of] = what a Publish finds
+   under a key): a rejected duplicate - whatever context it carried - leaves every subscription, its context
+   included, as it was; a successful one records exactly its own context. *)
+Theorem C15_rejected_duplicate_changes_nothing : forall c k t cr k',
+  In t (lookup k (fst cr)) -> subs_of k' (Proofs.Notifier.after_subscribe c k t cr) = subs_of k' cr.
+Proof. exact Proofs.Notifier.rejected_duplicate_changes_nothing. Qed.
+Print Assumptions C15_rejected_duplicate_changes_nothing.
+
+Theorem C15_subscribe_records_its_context_only : forall c k t cr, ~ In t (lookup k (fst cr)) ->
+  exists cr', subscribe_ctx c k t cr = Some cr' /\
+    lookup k (fst cr') = lookup k (fst cr) ++ [t] /\
+    (forall k', k' <> k -> lookup k' (fst cr') = lookup k' (fst cr)) /\
+    ctx_of k t (snd cr') = c /\
+    (forall k' t', k' <> k \/ t' <> t -> ctx_of k' t' (snd cr') = ctx_of k' t' (snd cr)).
+Proof. exact Proofs.Notifier.subscribe_ctx_ok. Qed.
+Print Assumptions C15_subscribe_records_its_context_only.
+
+Theorem C15_cancelled_registration_receives_nothing : forall k cr t, Proofs.Notifier.reg_ok (fst cr) ->
+  In t (lookup k (fst cr)) -> ctx_of k t (snd cr) = CtxCancelled -> ~ In t (fst (publish_ready k cr)).
+Proof. exact Proofs.Notifier.publish_ready_skips_cancelled. Qed.
+Print Assumptions C15_cancelled_registration_receives_nothing.
+
 Theorem C15_second_unsubscribe_panics : forall k t r r', unsubscribe k t r = Some r' -> unsubscribe k t r' = None.
 Proof. exact Proofs.Notifier.unsubscribe_twice_panics. Qed.
 Print Assumptions C15_second_unsubscribe_panics.
